@@ -72,6 +72,7 @@ FAULTS = [
     ("reg-as-assign", "parse", "error", "reserved-name", ["r1 = 5"]),
     ("extern-local", "parse", "error", "invalid-extern", ["1:: nop"]),
     ("unknown-escape", "parse", "error", "invalid-escape", ['.ascii "a\\qb"', ".even"]),
+    ("hex-escape-short", "parse", "error", "invalid-escape", ['.ascii "a\\x1"', ".even"]),
     ("no-ws-after-mnemonic", "parse", "error", "missing-whitespace", ["mov#1, r0"]),
     ("rad50-long", "parse", "error", "invalid-string", [".word ^Rabcd"]),
     ("dot-eqeq", "parse", "error", "invalid-assignment", [". == 1000"]),
@@ -126,9 +127,9 @@ FAULTS = [
     ("negative-block", "eval", "error", "value-out-of-bounds", [".blkb -1"]),
     ("negative-repeat", "eval", "error", "value-out-of-bounds", [".repeat -1 { nop }"]),
 ]
-# a planted fault after which the assembler is known to die with an internal error (C08's business):
-# an error is reported first, so C07 still expects status != 0 and no files
-CRASH_FAULTS = [("hex-escape-short", "parse", "error", "invalid-escape", ['.ascii "a\\x1"', ".even"])]
+# planted faults after which the assembler is known to die with an internal error (C08's business; an error is
+# reported first, so C07 still expects status != 0 and no files).  ('\\x1' was one until it was fixed.)
+CRASH_FAULTS = [("nesting-beyond-recursion-limit", "parse", "crash", "", [".word " + "(" * 400 + "1" + ")" * 400])]
 
 WARNINGS = [
     ("implicit-operand", [".word"]),
@@ -716,7 +717,10 @@ def catalogue_selftest(rep):
         shutil.rmtree(d, ignore_errors=True)
         rep.add_eval()
         first = [x for x in r["diags"] if x[0] != "warning"][:1]
-        if not first or first[0][0] != sev or first[0][1] != ident or r["outcome"] == "ok":
+        if sev == "crash":
+            if r["outcome"] != "crash":
+                rep.disagree("crash catalogue entry no longer crashes the assembler", {"kind": kind}, impl={"outcome": r["outcome"]})
+        elif not first or first[0][0] != sev or first[0][1] != ident or r["outcome"] == "ok":
             bad += 1
             rep.disagree("fault catalogue entry no longer produces its diagnostic", {"kind": kind, "lines": fl, "expected": [sev, ident]},
                          impl={"outcome": r["outcome"], "diags": [x[:2] for x in r["diags"]][:4]})
